@@ -72,6 +72,9 @@ type state struct {
 	groupPub tbls.PublicKey
 	shares   map[int]tbls.PrivateKey
 	ids      []int // sorted ids of shares
+	// the honest combination last evaluated, for Replay
+	lastS   []int
+	lastMsg any
 }
 
 // idOf maps a rank to the id of that share; rank n+1 (or anything beyond) is an id no share has.
@@ -169,6 +172,8 @@ func runOne(t *testing.T, tr sink, sid int, sched []drv.Step) {
 			doRecover(tr, st, step)
 		case "Combine":
 			doCombine(tr, st, step)
+		case "Replay":
+			doReplay(tr, st)
 		default:
 			panic(fmt.Sprintf("unknown step %v", step))
 		}
@@ -258,6 +263,7 @@ func doCombine(tr sink, st *state, step drv.Step) {
 	sub, _ := step["sub"].(map[string]any)
 	kind, pos, arg := drv.Str(sub["kind"]), drv.Num(sub["pos"]), drv.Num(sub["arg"])
 	msg := msgOf(step["msg"], false)
+	st.lastS, st.lastMsg = S, step["msg"]
 	failed := false
 	altered := false
 	partials := map[int]tbls.Signature{}
@@ -329,4 +335,90 @@ func doCombine(tr sink, st *state, step drv.Step) {
 	}
 	tr.Emit(drv.Step{"ev": "Combine", "S": S, "sub": sub, "msg": step["msg"], "setupErr": failed, "aggErr": aggErr,
 		"altered": altered, "aggEqAll": eqAll, "aggEqAny": eqAny, "verifiesAll": verAll, "verifiesAny": verAny})
+}
+
+// doReplay: verification must be a pure function of (public key, message, signature).  Every signature of the last
+// honest combination is verified against the message it was made over FIRST, then the very same bytes are presented
+// for another message, then for the original again -- all in this process, through the public tbls functions.
+func doReplay(tr sink, st *state) {
+	m1, m2 := msgOf(st.lastMsg, false), msgOf(st.lastMsg, true)
+	failed := false
+	genuine, replay, cross, still := true, false, false, true
+	det := drv.Step{}
+	note := func(kind string, g, r, s bool) {
+		genuine, replay, still = genuine && g, replay || r, still && s
+		det[kind] = []bool{g, r, s}
+	}
+	type signed struct {
+		pub tbls.PublicKey
+		sig tbls.Signature
+	}
+	var (
+		parts    []signed
+		partials = map[int]tbls.Signature{}
+		pubs     []tbls.PublicKey
+		sigs     []tbls.Signature
+	)
+	for _, r := range st.lastS {
+		id := st.idOf(r)
+		key := st.shares[id]
+		pub, err := tbls.SecretToPublicKey(key)
+		if err != nil {
+			failed = true
+		}
+		sig, err := tbls.Sign(key, m1)
+		if err != nil {
+			failed = true
+		}
+		parts = append(parts, signed{pub, sig})
+		partials[id] = sig
+		pubs = append(pubs, pub)
+		sigs = append(sigs, sig)
+	}
+	// partial signatures under the share keys
+	pg, pr, ps := true, false, true
+	for _, p := range parts {
+		pg = pg && tbls.Verify(p.pub, m1, p.sig) == nil
+	}
+	for _, p := range parts {
+		pr = pr || tbls.Verify(p.pub, m2, p.sig) == nil
+	}
+	for _, p := range parts {
+		ps = ps && tbls.Verify(p.pub, m1, p.sig) == nil
+	}
+	note("partial", pg, pr, ps)
+	// the threshold aggregate under the group key
+	agg, err := tbls.ThresholdAggregate(partials)
+	if err != nil {
+		failed = true
+	}
+	g := tbls.Verify(st.groupPub, m1, agg) == nil
+	r := tbls.Verify(st.groupPub, m2, agg) == nil
+	note("group", g, r, tbls.Verify(st.groupPub, m1, agg) == nil)
+	// the plain BLS aggregate of the partials under VerifyAggregate (FastAggregateVerify)
+	plain, err := tbls.Aggregate(sigs)
+	if err != nil {
+		failed = true
+	}
+	g = tbls.VerifyAggregate(pubs, plain, m1) == nil
+	r = tbls.VerifyAggregate(pubs, plain, m2) == nil
+	note("aggregate", g, r, tbls.VerifyAggregate(pubs, plain, m1) == nil)
+	// interleaved: two signatures over two messages, both verified, then each presented for the other's message
+	for name, kp := range map[string]struct {
+		key tbls.PrivateKey
+		pub tbls.PublicKey
+	}{"crossGroup": {st.secret, st.groupPub}, "crossShare": {st.shares[st.idOf(st.lastS[0])], parts[0].pub}} {
+		s1, err1 := tbls.Sign(kp.key, m1)
+		s2, err2 := tbls.Sign(kp.key, m2)
+		if err1 != nil || err2 != nil {
+			failed = true
+		}
+		g := tbls.Verify(kp.pub, m1, s1) == nil && tbls.Verify(kp.pub, m2, s2) == nil
+		c := tbls.Verify(kp.pub, m2, s1) == nil || tbls.Verify(kp.pub, m1, s2) == nil
+		s := tbls.Verify(kp.pub, m1, s1) == nil && tbls.Verify(kp.pub, m2, s2) == nil
+		genuine, cross, still = genuine && g, cross || c, still && s
+		det[name] = []bool{g, c, s}
+	}
+	tr.Emit(drv.Step{"ev": "Replay", "setupErr": failed, "genuine": genuine, "replayVerifies": replay, "crossVerifies": cross,
+		"stillVerifies": still, "detail": det})
 }
